@@ -95,7 +95,7 @@ impl Prop for C09Prop {
         "C09"
     }
     fn rule(&self) -> &'static str {
-        "Every atom of length 0..2 (length 3: stride-sampled quick, complete thorough) placed bare, as list head, in list tail, as improper tail, as both members of a pair and as head of a nested list; proptest-generated G1 trees over the text-hostile atom classes. Oracle: for operator-set versions 0,1,2 assemble(disassemble(t,v)) succeeds and equals t; in fixed integer mode the modern printer's text for convert_from_clvm_rs(t) is read back to t by parse_sexp+convert_to_clvm_rs and by the classic assembler; (compiled section) for generated programs with string/hex/negative/large/zero-prefixed/quoted-bareword literals the text printed for the compiler output assembles to the bytes the library emits. Non-trivial: the tree contains an atom that is neither empty nor a single byte < 0x80. Distinct by hash of the serialized tree."
+        "Every atom of length 0..2 (length 3: stride-sampled quick, complete thorough) placed bare, as list head, in list tail, as improper tail, as both members of a pair and as head of a nested list; proptest-generated G1 trees over the text-hostile atom classes. Oracle: for operator-set versions 0,1,2 assemble(disassemble(t,v)) succeeds and equals t; in fixed integer mode the modern printer's text for convert_from_clvm_rs(t) is read back to t by parse_sexp+convert_to_clvm_rs and by the classic assembler; the statement's last sentence (text printed by the command-line compiler denotes the bytes the library emits) is checked on generated programs by C11's 'run -O (printed text re-assembled)' entry point. Non-trivial: the tree contains an atom that is neither empty nor a single byte < 0x80. Distinct by hash of the serialized tree."
     }
     fn sections(&self, tier: Tier) -> Vec<Section> {
         vec![
